@@ -1476,3 +1476,36 @@ func rbWouldDivideByZero(data []byte) bool {
 	_, err := amp4.Unmarshal(bytes.NewReader(data[ftypSize+16:]), uint64(moovSize-8), &mvhd, amp4.Context{})
 	return err == nil && mvhd.Timescale == 0
 }
+
+// rbFixedSession builds a deterministic session for hand-written regression tests: video every videoMs (key frame
+// every gop frames, AV1) from t=0, audio every audioMs from audioStartMs (audioMs == 0: no audio), units fed in
+// time order (video first on ties), lasting totalMs.
+func rbFixedSession(start time.Time, videoMs, gop, audioMs, audioStartMs, totalMs int) rbSession {
+	se := rbSession{Start: start}
+	type ev struct {
+		u  rbUnit
+		at int
+	}
+	var evs []ev
+	n := 0
+	for ms := 0; ms < totalMs; ms += videoMs {
+		evs = append(evs, ev{rbUnit{Track: 0, Ticks: int64(ms) * rbVideoClock / 1000, Sync: n%gop == 0, Size: 10}, ms})
+		n++
+	}
+	se.EndTicks = int64(n*videoMs) * rbVideoClock / 1000
+	if audioMs > 0 {
+		for ms := audioStartMs; ms < totalMs+audioMs; ms += audioMs {
+			evs = append(evs, ev{rbUnit{Track: 1, Ticks: int64(ms) * rbAudioClock / 1000, Sync: true, Size: 16}, ms})
+		}
+	}
+	sort.SliceStable(evs, func(i, j int) bool {
+		if evs[i].at != evs[j].at {
+			return evs[i].at < evs[j].at
+		}
+		return evs[i].u.Track < evs[j].u.Track
+	})
+	for _, e := range evs {
+		se.Units = append(se.Units, e.u)
+	}
+	return se
+}
